@@ -1099,7 +1099,9 @@ func judgeApply(o *Out, op string, c *typCtx, ig ignoreCfg, up *merge.Updater, s
 				if ig.kind != "none" {
 					return // ignored fields are outside this clause
 				}
-				if anyBeneath(p, fsRes) && !beneathAny(p, fsCfg) && !anyBeneath(p, fsCfg) {
+				// (a configuration leaf above p — an atomic or scalar value given to an ancestor — replaces what
+				// is beneath it; an item or field of the configuration above p does not exempt p)
+				if anyBeneath(p, fsRes) && !beneathAny(p, fsCfg.Leaves()) && !anyBeneath(p, fsCfg) {
 					// still present although abandoned and unowned
 					o.Fail("C03", "abandoned-field-removed", "still present: "+vx.Path(p), "abandoned-field-removed "+op, op)
 				}
